@@ -781,6 +781,9 @@ def make_dataset(ex, name, env, owner="caller", **kw):
     ds.fields["vars"].ghost["entry_factory"] = _da_factory(owner)
     ds.fields["dims"] = SymDict(name + ".dims", closed=closed, owner=owner)
     ds.ghost["owner"] = owner
+    if kw.get("ds_attrs"):
+        # opt-in: the dataset's own attrs as an open symbolic mapping (whatever an earlier owner left there may be present)
+        ds.fields["attrs"] = SymDict(name + ".attrs", closed=False, owner=owner)
     for dname, dspec in (kw.get("dim_sizes") or {}).items():
         # dimension lengths: a concrete int, or 'opaque' (an unknown object), or a size symbol of the contract
         if isinstance(dspec, int):
